@@ -102,7 +102,7 @@ func main() {
 	}
 	cfg := &Config{repoDir: repo, verifDir: verif, tier: "quick", workers: runtime.NumCPU(), unwind: 24, maxDepth: 80,
 		maxSteps: 4000000, maxPieces: 12, maxIntSplit: 24, maxPaths: 400000, capFast: 2000, capFastImportant: 4000, capSlow: 20000,
-		witnessMax: 400}
+		witnessMax: 400, guessTries: 48}
 	if t := os.Getenv("VERIF_TIER"); t == "quick" || t == "thorough" {
 		cfg.tier = t
 	}
@@ -220,6 +220,7 @@ func doRun(cfg *Config, fn string, params map[string]int) int {
 	fmt.Printf("paths=%d completed=%d infeasible=%d panics=%d unsupported=%d outside=%d decisions=%d smt=%d syntactic=%d cache=%d/%d wall=%.1fs witnesses ok=%d bad=%d\n",
 		eng.stats.paths, eng.stats.completed, eng.stats.infeasible, eng.stats.panics, eng.stats.unsupported, eng.stats.outside,
 		eng.stats.decisions, eng.stats.smtQueries, eng.stats.syntactic, gCache.hits, gCache.hits+gCache.misses, time.Since(t0).Seconds(), ok, len(bad))
+	fmt.Printf("guessed=%d ", eng.stats.guessed)
 	fmt.Printf("solver: z3new q=%d t=%.1fs unk=%d | cvc5 q=%d t=%.1fs unk=%d | z3old q=%d t=%.1fs unk=%d | steps=%d\n", gStats.queries[0], float64(gStats.timeNs[0])/1e9, gStats.unknown[0],
 		gStats.queries[1], float64(gStats.timeNs[1])/1e9, gStats.unknown[1], gStats.queries[2], float64(gStats.timeNs[2])/1e9, gStats.unknown[2], eng.stats.steps)
 	for _, m := range h.incon {
@@ -566,7 +567,7 @@ func (ev *evidence) fill(eng *Engine, pd *PropDef, runs []*HarnessRun, okW, badW
 	cov["outside_the_claim"] = pd.Outside
 	cov["paths"] = map[string]int64{"explored": st.paths, "completed": st.completed, "infeasible": st.infeasible, "ended_in_panic": st.panics,
 		"unsupported": st.unsupported, "unwind": st.unwinds, "outside_model": st.outside, "deadlock": st.deadlocks}
-	cov["queries"] = map[string]interface{}{"decided_syntactically": st.syntactic, "smt": st.smtQueries, "cache_hits": gCache.hits,
+	cov["queries"] = map[string]interface{}{"decided_syntactically": st.syntactic, "sat_by_concrete_witness": st.guessed, "smt": st.smtQueries, "cache_hits": gCache.hits,
 		"z3_new": gStats.queries[Z3New], "cvc5": gStats.queries[CVC5], "z3_4_8": gStats.queries[Z3Old],
 		"unknown_z3_new": gStats.unknown[Z3New], "unknown_cvc5": gStats.unknown[CVC5], "unknown_z3_4_8": gStats.unknown[Z3Old],
 		"unknown_feasibility_kept": st.unknownFeas, "solver_errors": gStats.errors, "diffed_against_second_solver": st.diffed, "disagreements": st.disagreements}
